@@ -281,6 +281,7 @@ type vplCase struct {
 	Bypass    bool   `json:"bypass"`
 	Intra     bool   `json:"intra"` // the caller sends the intra-proxy marker header
 	Name      string `json:"name"`
+	Fresh     bool   `json:"fresh"` // the call is the first one a newly started server sees
 	M         struct {
 		Service string `json:"service"`
 		Method  string `json:"method"`
@@ -349,6 +350,10 @@ func vplSetupOnce(t *testing.T, policy string, mapping bool, transport string) (
 		cfg.SearchAttributeTranslation = config.SATranslationConfig{NamespaceMappings: []config.SANamespaceMapping{{
 			Name: "ns-allowed", NamespaceId: "ns-id-1",
 			Mappings: []config.SAMapping{{LocalName: "sa-l", RemoteName: "sa-r"}, {LocalName: "sa-same", RemoteName: "sa-same"}}}}}
+	}
+	switch {
+	case strings.HasPrefix(policy, "only:"):
+		cfg.ACLPolicy = &config.ACLPolicy{AllowedMethods: config.AllowedMethods{AdminService: []string{strings.TrimPrefix(policy, "only:")}}}
 	}
 	switch policy {
 	case "empty":
@@ -585,6 +590,9 @@ func TestVerifPipelineCases(t *testing.T) {
 	groups := map[string][]vplCase{}
 	for _, c := range cases {
 		k := fmt.Sprintf("%s/%v/%s", c.Policy, c.Mapping, c.Transport)
+		if c.Fresh {
+			k += fmt.Sprintf("/fresh-%s-%d", c.M.Method, c.ID)
+		}
 		groups[k] = append(groups[k], c)
 	}
 	keys := []string{}
@@ -595,7 +603,13 @@ func TestVerifPipelineCases(t *testing.T) {
 	for _, k := range keys {
 		g := groups[k]
 		e := vplSetup(t, g[0].Policy, g[0].Mapping, g[0].Transport)
-		if g[0].Transport == "mux" {
+		if g[0].Transport == "mux" && g[0].Fresh {
+			// wait for the mux session without making a call: the peer's client side reports it
+			dl := time.Now().Add(8 * time.Second)
+			for time.Now().Before(dl) && !e.peer.AcceptingOutboundTraffic() {
+				time.Sleep(20 * time.Millisecond)
+			}
+		} else if g[0].Transport == "mux" {
 			// wait for the mux session: a harmless call through the peer must reach the local fake
 			dl := time.Now().Add(8 * time.Second)
 			for time.Now().Before(dl) {
